@@ -31,6 +31,9 @@ def param_flows_to_result(repo: Repo, f: FuncInfo, param: str, depth: int = 0) -
     return param in got
 
 
+_DUNDER_OF = {"str": "__str__", "repr": "__repr__", "hash": "__hash__", "len": "__len__", "bool": "__bool__", "iter": "__iter__"}
+
+
 def slice_fields(repo: Repo, f: FuncInfo, root: str, cls: Optional[str], depth: int = 0, seen: Optional[set] = None,
                  sink: str = "return", control: bool = True, want_names: bool = False) -> Set[str]:
     """Fields of the object named `root` that are read in f on some path *and* flow into the result
@@ -109,6 +112,12 @@ def slice_fields(repo: Repo, f: FuncInfo, root: str, cls: Optional[str], depth: 
         for n in ast.walk(e):
             if isinstance(n, ast.Attribute) and isinstance(n.value, ast.Name) and n.value.id in roots and id(n) not in blocked:
                 fields.add(n.attr)
+            # str(obj) / repr(obj) / hash(obj) / f"{obj}" read what the corresponding special method reads
+            if isinstance(n, ast.Call) and isinstance(n.func, ast.Name) and n.func.id in _DUNDER_OF and len(n.args) == 1 \
+                    and isinstance(n.args[0], ast.Name) and n.args[0].id in roots:
+                fields.add(_DUNDER_OF[n.func.id])
+            if isinstance(n, ast.FormattedValue) and isinstance(n.value, ast.Name) and n.value.id in roots:
+                fields.add("__repr__" if n.conversion == 114 else "__str__")
     out: Set[str] = set()
     for fld in fields:
         m = repo.find_method(cls, fld) if cls else None
